@@ -108,6 +108,7 @@ def check_C07(ctx):
     chars_jobs(ctx, ["Inv_C07"], [{"op": "tokenize"}], multi_token)
     atoms_jobs(ctx, ["Inv_C07"], [{"op": "tokenize"}], multi_token)
     junk_jobs(ctx, ["Inv_C07"], [{"op": "tokenize"}], multi_token)
+    pump_job(ctx, ["Inv_C07"], [{"op": "tokenize"}], ["mb", "mb4", "open", "lines", "ready"], [300] if ctx.quick else [300, 3000], cores=(0,))
     repo_docs_job(ctx, ["Inv_C07"], [{"op": "tokenize"}])
 
 
@@ -140,6 +141,7 @@ def check_C08(ctx):
     chars_jobs(ctx, ["Inv_C08"], [{"op": "tokenize"}], has_tag_token)
     atoms_jobs(ctx, ["Inv_C08"], [{"op": "tokenize"}], has_tag_token)
     junk_jobs(ctx, ["Inv_C08"], [{"op": "tokenize"}], has_tag_token)
+    pump_job(ctx, ["Inv_C08"], [{"op": "tokenize"}], ["mb", "mb4", "open", "lines", "ready"], [300] if ctx.quick else [300, 3000], cores=(0,))
     repo_docs_job(ctx, ["Inv_C08"], [{"op": "tokenize"}])
 
 
@@ -174,6 +176,8 @@ def check_C01(ctx):
     gens = [lines_gen(6 if q else 8, 3, 3, ["Ru", "R", "P"], blank=False),
             lines_gen(6 if q else 9, 2, 2, ["Ru", "Pu", "R"], blank=True, base=1),
             lines_gen(7 if q else 9, 2, 2, ["Ru"], blank=False, pairs=True, max_code=4),     # touching removed regions + unwrap
+            lines_gen(7 if q else 8, 2, 2, ["Ru", "R"], blank=False, inline=True, max_code=3, base=1, edge="あ"),   # multi-byte characters glued to inline tags
+            lines_gen(6 if q else 7, 2, 2, ["Ru", "R"], blank=False, tail=True, max_code=2, base=1, edge="😀"),
             lines_gen(14, 3, 5, ["Ru", "R", "P", "Pu", "T", "S"], free=(0, 2), ws=(2,), simulate=(40 if q else 2000, 14))]
     ctx.job("unwrap-wrapper-tags", gens=gens, invariants=["Inv_C01"], ops=ops, cfg={"ds": "<", "de": ">"}, nontrivial=has_ready)
     junk_jobs(ctx, ["Inv_C01"], ops, None)
@@ -182,6 +186,7 @@ def check_C01(ctx):
                                      cfg={"off": off, "targets": targets, "now": [0, 0]})
                                 for (off, targets) in [("", []), ("UTC", ["a"]), ("+25:00", ["", "a"])]],
             invariants=["Inv_C01"], ops=ops, cfg={"ds": "<", "de": ">"}, nontrivial=None)
+    pump_job(ctx, ["Inv_C01"], ops, sorted(PUMP_UNITS), [257] if q else [100, 257, 1000])
     repo_docs_job(ctx, ["Inv_C01"], LIST_OPS)
 
 
@@ -195,16 +200,16 @@ K = {"T1": ["T1", False], "T2": ["T2", False], "T3": ["T3", False], "T1u": ["T1"
      "Ru": ["R", True], "Pu": ["P", True], "Tu": ["T", True], "Su": ["S", True],
      "SP": ["SP", False], "SF": ["SF", False], "SPu": ["SP", True], "NV": ["NV", False], "NN": ["NN", False], "NVu": ["NV", True],
      "TB": ["TB", False], "TBu": ["TB", True], "RB": ["RB", False], "PB": ["PB", False], "RBu": ["RB", True],
-     "UX": ["UX", False], "UP": ["UP", False], "XR": ["XR", False], "XT": ["XT", False], "UXu": ["UX", True]}
+     "US": ["US", False], "UST": ["UST", False], "USu": ["US", True], "UX": ["UX", False], "UP": ["UP", False], "XR": ["XR", False], "XT": ["XT", False], "UXu": ["UX", True]}
 
 
 def lines_gen(L, D, E, kinds, unit="  ", base=0, free=(), ws=(), blank=True, suffix="", simulate=None, code_a="", code_b="",
-              mb=False, max_code=99, empty_default=False, pairs=False, preamble=0, inline=False, pair_kind="R", eol="\n", tag_sep=" ", flag_val="", quote="'", flags_first=False, tail=False, pad="", wide=False, free_tags=True, tail_kinds=None, crossing=False, free_code=True, extra_attr="", eq_pad=("", "")):
+              mb=False, max_code=99, empty_default=False, pairs=False, preamble=0, inline=False, pair_kind="R", eol="\n", tag_sep=" ", flag_val="", quote="'", flags_first=False, tail=False, pad="", wide=False, free_tags=True, tail_kinds=None, crossing=False, free_code=True, extra_attr="", eq_pad=("", ""), edge=""):
     from vlib import TlaSet
     g = {"base": "GenLines", "constraint": "Feasible",
          "consts": {"L": L, "D": D, "E": E, "Kinds": TlaSet([K[k] for k in kinds]), "Unit": Chars(unit), "Base": base,
                     "FreeInd": TlaSet(list(free)), "FreeTags": free_tags, "FreeCode": free_code, "WsLens": TlaSet(list(ws)), "Blank": blank, "Suffix": Chars(suffix), "CodeA": Chars(code_a), "CodeB": Chars(code_b), "MbCode": mb, "MaxCode": max_code, "EmptyDefault": empty_default, "PairLines": pairs, "Preamble": preamble,
-                    "InlineTags": inline, "PairKind": K[pair_kind], "EOL": Chars(eol), "TagSep": Chars(tag_sep), "FlagVal": Chars(flag_val), "QuoteCh": ord(quote), "FlagsFirst": flags_first, "Crossing": crossing, "TailElems": tail, "TailKinds": TlaSet([K[k] for k in (tail_kinds or kinds)]), "TagPad": Chars(pad), "ExtraAttr": Chars(extra_attr), "EqPad": [Chars(eq_pad[0]), Chars(eq_pad[1])], "WideCode": wide,
+                    "InlineTags": inline, "PairKind": K[pair_kind], "EOL": Chars(eol), "TagSep": Chars(tag_sep), "FlagVal": Chars(flag_val), "QuoteCh": ord(quote), "FlagsFirst": flags_first, "Crossing": crossing, "TailElems": tail, "TailKinds": TlaSet([K[k] for k in (tail_kinds or kinds)]), "TagPad": Chars(pad), "ExtraAttr": Chars(extra_attr), "EqPad": [Chars(eq_pad[0]), Chars(eq_pad[1])], "WideCode": wide, "EdgeCh": Chars(edge),
                     "PastTo": Chars(PAST), "FutureTo": Chars(FUTURE),
                     "Tos": [Chars(t) for t in TOS], "Names": [Chars(n) for n in MNAMES]}}
     if simulate:
@@ -235,7 +240,7 @@ def kitchen_sink(ctx, kinds, L, n):
                      code_b=["", " = 1"][(sd // 3) % 2], flag_val=["", "='1'", '="true"'][(sd // 2) % 3], quote=["'", '"'][(sd + 1) % 2],
                      flags_first=(sd % 3 == 1), tail=True, pad=["", " "][(sd // 3) % 2],
                      extra_attr=["", " skipper", " Skip", " xunwrap-block", " names='a'", " unwrap-blocks"][sd % 6],
-                     eq_pad=[("", ""), (" ", " "), ("", " "), (" ", "")][(sd // 2) % 4], simulate=(n, L))
+                     eq_pad=[("", ""), (" ", " "), ("", " "), (" ", "")][(sd // 2) % 4], edge=["", "あ", "😀"][(sd + 1) % 3], simulate=(n, L))
 
 
 def block_jobs(ctx, invariants, ops, lite=False):
@@ -258,6 +263,15 @@ def block_jobs(ctx, invariants, ops, lite=False):
                 lines_gen(4, 2, 2, ["R", "S", "P"], blank=False, flag_val="='1'"),                   # valued flag attribute: skip='1'
                 lines_gen(4, 2, 2, ["R", "S", "T"], blank=False, quote='"', flags_first=True),
                 lines_gen(4, 2, 2, ["R", "P"], blank=True, tail=True, max_code=2),                      # elements behind code on one line
+                lines_gen(4, 2, 2, ["R", "P"], blank=True, tail=True, max_code=2, base=1, edge="あ"),
+                lines_gen(5, 2, 2, ["R", "P"], blank=False, inline=True, max_code=2, base=1, edge="é"),
+                lines_gen(4, 2, 2, ["R", "P"], blank=True, tail=True, max_code=2, base=1, mb=True),        # nothing but multi-byte text in front of / behind an element on its line
+                lines_gen(5, 2, 2, ["R", "P"], blank=False, inline=True, max_code=2, base=1, mb=True),
+                dict(lines_gen(4, 2, 2, ["R", "P"], blank=False, tail=True, max_code=2, edge="<"), cfg=html),   # the delimiter's first character once more in front of a tag
+                dict(lines_gen(4, 2, 2, ["R", "T"], blank=False, tail=True, max_code=2, edge="/"), cfg={"ds": "/* <", "de": "> */"}),
+                lines_gen(6, 2, 3, ["R", "US", "UST", "T"], blank=False, crossing=True, max_code=1),       # an unclosed element inside a wrapper whose name ends with its name
+                lines_gen(5 if not lite else 4, 2, 2, ["R", "P"], ws=(2,), eol="\r\n"),                       # CRLF documents: CR is an ordinary character, line numbers count LF
+                lines_gen(6, 1, 1, ["R"], unit=" " * 35, base=1, ws=(35, 70), blank=False, max_code=2),       # very wide indentation and whitespace-only lines (look-behind windows)
                 lines_gen(5, 1, 1, ["R"], blank=True, wide=True, max_code=2),                           # lines of wide blanks (U+3000, NBSP) only
                 lines_gen(4, 2, 2, ["R", "UX", "UP", "XR", "XT"], blank=False, max_code=1),                # near-miss tag names, the other evaluator's attribute
                 lines_gen(4, 2, 2, ["TB", "R", "T"], blank=False, max_code=1),                             # a `to` that cannot be read: never ready
@@ -290,11 +304,22 @@ def block_jobs(ctx, invariants, ops, lite=False):
         ("block-near-misses", [lines_gen(6, 2, 2, ["R", "UX", "UP", "XR", "XT"], blank=False, max_code=2),
                                lines_gen(6, 2, 2, ["R", "P", "T"], blank=False, extra_attr=" skipper"), lines_gen(6, 2, 2, ["R", "T"], extra_attr=" Skip"),
                                lines_gen(6, 2, 2, ["Ru", "R"], blank=False, extra_attr=" xunwrap-block unwrap-blocks")]),
-        ("block-crossing", [lines_gen(8, 3, 3, ["R", "P", "T"], blank=False, crossing=True, max_code=3)]),
+        ("block-crossing", [lines_gen(8, 3, 3, ["R", "P", "T"], blank=False, crossing=True, max_code=3),
+                            lines_gen(7, 2, 3, ["R", "US", "UST", "T"], blank=False, crossing=True, max_code=2)]),
+        ("block-crlf", [lines_gen(7, 2, 2, ["R", "P"], ws=(2,), eol="\r\n"), lines_gen(6, 2, 2, ["R", "T"], base=1, blank=True, tail=True, max_code=2, eol="\r\n")]),
+        ("block-wide-indent", [lines_gen(7, 1, 1, ["R"], unit=" " * 35, base=1, ws=(35, 70), blank=True, max_code=2),
+                               lines_gen(5, 2, 2, ["R", "P"], unit=" " * 130, base=1, ws=(130, 260), blank=True, max_code=2),
+                               lines_gen(5, 1, 1, ["R"], unit="\t" * 70, base=1, ws=(70,), blank=True, max_code=2)]),
+        ("block-mb-neighbours", [lines_gen(6, 2, 2, ["R", "P"], blank=True, tail=True, max_code=3, base=1, mb=True),
+                                 lines_gen(7, 2, 2, ["R", "P"], blank=False, inline=True, max_code=3, base=1, mb=True)]),
+        ("block-delimiter-char-edges", [dict(lines_gen(6, 2, 2, ["R", "P"], blank=False, tail=True, max_code=3, edge="<"), cfg=html),
+                                        dict(lines_gen(6, 2, 2, ["R", "T"], blank=False, inline=True, max_code=3, edge="/"), cfg={"ds": "/* <", "de": "> */"}),
+                                        dict(lines_gen(6, 2, 2, ["R", "T"], blank=False, tail=True, max_code=3, edge="-", pad=" -"), cfg={"ds": "<!--", "de": "-->"})]),
         ("block-valueless-names", [dict(lines_gen(6, 2, 2, ["NV", "NN", "R", "NVu"], blank=False), cfg={"targets": ["a", ""]})]),
         ("block-wide-blanks", [lines_gen(7, 1, 2, ["R"], blank=True, wide=True, max_code=3), lines_gen(6, 2, 2, ["R", "P"], base=1, ws=(1,), wide=True)]),
         ("block-padded-tags", [lines_gen(6, 2, 2, ["R", "P", "T"], blank=False, pad=" "), lines_gen(6, 2, 2, ["R", "P"], pad="  ")]),
-        ("block-tail-elements", [lines_gen(7, 2, 2, ["R", "P"], blank=True, tail=True, max_code=3)]),
+        ("block-tail-elements", [lines_gen(7, 2, 2, ["R", "P"], blank=True, tail=True, max_code=3), lines_gen(6, 2, 2, ["R", "P"], blank=True, tail=True, max_code=3, base=1, edge="あ"),
+                                 lines_gen(7, 2, 2, ["R", "P"], blank=False, inline=True, max_code=3, base=1, edge="é")]),
         ("block-valued-flags", [lines_gen(7, 2, 2, ["R", "S", "P"], blank=False, flag_val="='1'"), lines_gen(6, 2, 2, ["R", "S"], flag_val='=""'),
                                 lines_gen(7, 2, 2, ["R", "S", "T"], blank=False, quote='"', flags_first=True)]),
         ("block-two-line-tags", [lines_gen(7, 2, 2, ["R", "P", "T"], base=1, blank=True, tag_sep="\n     "),
@@ -331,6 +356,11 @@ def unwrap_jobs(ctx, invariants, ops, lite=False):
                 lines_gen(6, 2, 2, ["Ru", "Tu", "P"], free=(1,), blank=False, quote='"', flags_first=True),   # flags first, double quotes
                 lines_gen(6, 2, 2, ["Ru", "R"], blank=False, tail=True, max_code=2),
                 lines_gen(6, 2, 2, ["Ru", "P"], blank=False, pad=" "),
+                lines_gen(7 if not lite else 6, 2, 2, ["Ru", "R"], blank=False, inline=True, max_code=3, base=1, edge="あ"),   # a multi-byte character glued to inline tags
+                lines_gen(6, 2, 2, ["Ru", "R"], blank=False, tail=True, max_code=2, base=1, edge="é"),
+                lines_gen(7 if not lite else 6, 2, 2, ["Ru", "R"], blank=False, ws=(1, 3), base=1, max_code=3),          # whitespace-only lines shorter / longer than the tag's indentation around a removed child
+                lines_gen(6, 2, 2, ["Ru", "R"], blank=False, tail=True, max_code=2, base=1, mb=True),
+                dict(lines_gen(6, 2, 2, ["Ru", "R"], blank=False, inline=True, max_code=2, edge="<"), cfg={"ds": "<!-- <", "de": "> -->"}),
                 lines_gen(6, 1, 1, ["Ru", "Tu"], free=(1,), blank=False, eq_pad=("", " ")),
                 dict(lines_gen(6, 1, 1, ["RBu", "TBu"], free=(1,), blank=False), cfg={"targets": ["a "]}),
                 lines_gen(6, 1, 1, ["Ru"], free=(0, 2), blank=False, wide=True),                          # inner lines beginning with a wide blank
@@ -355,6 +385,13 @@ def unwrap_jobs(ctx, invariants, ops, lite=False):
                                  lines_gen(8, 2, 2, ["Ru", "P", "R"], blank=False, base=1, tag_sep="\n     ")]),
         ("unwrap-pairs", [lines_gen(9, 2, 2, ["Ru", "P"], blank=False, pairs=True, max_code=5)]),
         ("unwrap-inline-tags", [lines_gen(8, 2, 3, ["Ru", "R", "P"], blank=False, inline=True, max_code=4)]),
+        ("unwrap-ws-lines", [lines_gen(9, 2, 2, ["Ru", "R"], blank=True, ws=(1, 3), base=1, max_code=4), lines_gen(8, 2, 2, ["Ru", "R", "P"], blank=False, ws=(2, 5), base=2, max_code=3)]),
+        ("unwrap-mb-neighbours", [lines_gen(8, 2, 2, ["Ru", "R"], blank=False, tail=True, max_code=3, base=1, mb=True),
+                                  lines_gen(8, 2, 2, ["Ru", "R"], blank=False, inline=True, max_code=3, base=1, mb=True),
+                                  dict(lines_gen(8, 2, 2, ["Ru", "R"], blank=False, inline=True, max_code=3, edge="<"), cfg={"ds": "<!-- <", "de": "> -->"})]),
+        ("unwrap-edge-chars", [lines_gen(8, 2, 2, ["Ru", "R"], blank=False, inline=True, max_code=4, base=1, edge="あ"),
+                               lines_gen(7, 2, 2, ["Ru", "R", "P"], blank=False, tail=True, max_code=3, base=1, edge="é"),
+                               lines_gen(7, 2, 2, ["Ru", "R"], blank=False, inline=True, tail=True, max_code=2, unit="\t", base=1, edge="😀")]),
         ("unwrap-interior-blanks", [lines_gen(8, 1, 1, ["Ru"], free=(0, 1, 2), blank=False, base=1, code_b=" = 1"),
                                     lines_gen(8, 1, 1, ["Ru"], unit="\t", free=(0, 2), blank=False, base=1, code_a=" "),
                                     lines_gen(9, 2, 2, ["Ru", "R"], unit="    ", free=(0,), blank=False, base=1, code_b=" = 1 ")]),
@@ -482,6 +519,7 @@ def check_C02(ctx):
     unwrap_jobs(ctx, ["Inv_C02"], [{"op": "clean"}])
     inline_jobs(ctx, ["Inv_C02"], [{"op": "clean"}])
     junk_jobs(ctx, ["Inv_C02"], [{"op": "clean"}], has_ready)
+    pump_job(ctx, ["Inv_C02"], [{"op": "clean"}], ["nest", "nest-p", "lines", "ready", "pending", "indent", "mb", "blank"], [100] if ctx.quick else [100, 300])
     repo_docs_job(ctx, ["Inv_C02"], [{"op": "clean"}])
 
 
@@ -510,6 +548,7 @@ def check_C03(ctx):
     unwrap_jobs(ctx, ["Inv_C03"], [{"op": "clean"}])
     inline_jobs(ctx, ["Inv_C03"], [{"op": "clean"}])
     junk_jobs(ctx, ["Inv_C03"], [{"op": "clean"}], has_ready)
+    pump_job(ctx, ["Inv_C03"], [{"op": "clean"}], ["nest", "nest-p", "lines", "ready", "pending", "indent", "mb", "blank"], [100] if ctx.quick else [100, 300])
     repo_docs_job(ctx, ["Inv_C03"], [{"op": "clean"}])
 
 
@@ -548,22 +587,26 @@ def check_C04(ctx):
     inline_jobs(ctx, ["Inv_C04"], [{"op": "clean"}])
     chars_jobs(ctx, ["Inv_C04"], [{"op": "clean"}], None, pairs_quick=2)
     junk_jobs(ctx, ["Inv_C04"], [{"op": "clean"}], None)
+    pump_job(ctx, ["Inv_C04"], [{"op": "clean"}], ["open", "stray", "nest-p", "pending", "lines", "mb"], [100, 257] if ctx.quick else [100, 257, 300])
     repo_docs_job(ctx, ["Inv_C04"], [{"op": "clean"}])
 
 
 def check_C11(ctx):
     unwrap_jobs(ctx, ["Inv_C11"], [{"op": "clean"}])
+    pump_job(ctx, ["Inv_C11"], [{"op": "clean"}], ["lines", "after", "indent", "nest", "blank"], [100] if ctx.quick else [100, 300], cores=(1,))
     repo_docs_job(ctx, ["Inv_C11"], [{"op": "clean"}])
 
 
 def check_C12(ctx):
     unwrap_jobs(ctx, ["Inv_C12"], [{"op": "clean"}])
     late_removal_job(ctx, ["Inv_C12"])
+    pump_job(ctx, ["Inv_C12"], [{"op": "clean"}], ["lines", "after", "indent", "nest", "blank"], [100] if ctx.quick else [100, 300], cores=(1,))
     repo_docs_job(ctx, ["Inv_C12"], [{"op": "clean"}])
 
 
 def check_C13(ctx):
     block_jobs(ctx, ["Inv_C13"], [{"op": "clean"}])
+    pump_job(ctx, ["Inv_C13"], [{"op": "clean"}], ["nest", "nest-p", "lines", "ready", "indent", "mb", "blank"], [100] if ctx.quick else [100, 300], cores=(0,))
     repo_docs_job(ctx, ["Inv_C13"], [{"op": "clean"}])
 
 
@@ -580,6 +623,7 @@ def check_C14(ctx):
     block_jobs(ctx, ["Inv_C14"], [{"op": "clean"}], lite=True)
     unwrap_jobs(ctx, ["Inv_C14"], [{"op": "clean"}], lite=False)
     late_removal_job(ctx, ["Inv_C14"])
+    pump_job(ctx, ["Inv_C14"], [{"op": "clean"}], ["nest", "lines", "ready", "indent", "mb", "blank"], [30] if ctx.quick else [30, 60])
     inline_jobs(ctx, ["Inv_C14"], [{"op": "clean"}])
     ctx.quick or repo_docs_job(ctx, ["Inv_C14"], [{"op": "clean"}])
 
@@ -603,6 +647,7 @@ def check_C15(ctx):
     block_jobs(ctx, ["Inv_C15"], ops, lite=True)
     unwrap_jobs(ctx, ["Inv_C15"], ops, lite=True)
     inline_jobs(ctx, ["Inv_C15"], ops, lite=True)
+    pump_job(ctx, ["Inv_C15"], ops, ["lines", "ready", "pending", "nest-p", "mb", "after"], [9, 10, 99, 100] if ctx.quick else [9, 10, 99, 100, 300])
     repo_docs_job(ctx, ["Inv_C15"], [{"op": "clean"}, {"op": "list_json"}, {"op": "list"}, {"op": "list_json"}])
 
 
@@ -638,6 +683,7 @@ def check_C16(ctx):
     block_jobs(ctx, ["Inv_C16"], ops, lite=True)
     unwrap_jobs(ctx, ["Inv_C16"], ops, lite=True)
     inline_jobs(ctx, ["Inv_C16"], ops, lite=True)
+    pump_job(ctx, ["Inv_C16"], ops, ["lines", "ready", "pending", "nest-p", "mb", "indent"], [9, 10, 99, 100] if ctx.quick else [9, 10, 99, 100, 300])
     repo_docs_job(ctx, ["Inv_C16"], [{"op": "list_json"}, {"op": "list"}, {"op": "list_all_json"}, {"op": "list_all"}])
 
 
@@ -651,6 +697,7 @@ def check_C17(ctx):
                                   lines_gen(7 if ctx.quick else 9, 2, 3, ["SP", "P", "R"], blank=False),          # skip on pending parents / children
                                   lines_gen(6 if ctx.quick else 8, 2, 2, ["SF", "SPu", "Pu", "F"], blank=False, flag_val="='1'")],
             invariants=["Inv_C17"], ops=ops, cfg={"ds": "<", "de": ">"}, nontrivial=has_ready)
+    pump_job(ctx, ["Inv_C17"], ops, ["lines", "ready", "pending", "nest-p", "mb"], [9, 10, 99, 100] if ctx.quick else [9, 10, 99, 100, 300])
     repo_docs_job(ctx, ["Inv_C17"], [{"op": "list_json"}, {"op": "list_all_json"}])
 
 
@@ -659,6 +706,8 @@ def check_C17(ctx):
 SPELLINGS = [("<", ">"), ("<!-- <", "> -->"), ("/* <", "> */"), ("// --", "-- //"), ("# <", "> #"), ("%%", "%%"),
              ("《", "》"), ("[[", "]]"), ("(*", "*)"), ("{{", "}}"), ("<?", "?>"), ("$(", ")"), ("\\begin{", "}"),
              ("{{ ", " }}"), ("<!--", "-->")]
+CLI_SPELLINGS = [("\\(", "\\)"), ("\\begin{", "}"), ("\\\\", "//"), ("$(", ")"), ("-->", "<!--"), ("--", "-->"), ("\\n", "\\t"),
+                 ("%s", "%d"), ("{{ ", " }}"), ("*", "?"), ("~/", "$HOME"), ("@", "\\")]
 NAME_POOL = [("tl", "rm"), ("time-limited", "removal-marker"), ("期限", "マーカー"), ("TimeLimited", "RemovalMarker"), ("FIXME", "rm_v2.old")]
 
 CANON_TOS = ["2024-02-29 23:59:59", "2024-03-01 00:00:00", "2023-12-31 23:59:59", "2024-01-01 00:00:00",
@@ -707,7 +756,7 @@ def check_C05(ctx):
         ctx.job("time-cli[%s]" % off,
                 gens=[{"base": "GenCli", "consts": {"Docs": [Chars(d) for d in docs], "TargetPool": [Chars("a")],
                                                     "Zones": ["UTC", "Asia/Tokyo", "America/Los_Angeles", "unset"] if not q else ["Asia/Tokyo", "unset"],
-                                                    "Langs": [""], "OmitAll": False, "Part": "clean_stdout", "Currents": TlaSet(["given"])}}],
+                                                    "Langs": [""], "OmitAll": False, "Part": "clean_stdout", "Currents": TlaSet(["given"]), "ArgForms": ["eq"]}}],
                 invariants=["Inv_C05", "Inv_C20"], ops=[], cli=True,
                 cfg={"ds": "<!-- <", "de": "> -->", "tl": "time-limited", "rm": "removal-marker", "off": off, "now": now},
                 nontrivial=None)
@@ -727,7 +776,7 @@ def check_C06(ctx):
     doc = "".join("<!-- <removal-marker name='%s'> -->\nx%d\n<!-- </removal-marker> -->\n" % (t, i)
                   for i, t in enumerate(["vec![]", "a", "", "feature1", "+00:00", "removal-marker", "b ", "b", " c", "c", "x,y", "x", "y"]))
     ctx.job("targets-cli", gens=[{"base": "GenCli", "consts": {"Docs": [Chars(doc)], "TargetPool": [Chars("a"), Chars("b "), Chars(" c"), Chars("x,y"), Chars("feature1")],
-                                                               "Zones": ["UTC"], "Langs": [""], "OmitAll": True, "Part": "stdout", "Currents": TlaSet(["given"])}}],
+                                                               "Zones": ["UTC"], "Langs": [""], "OmitAll": True, "Part": "stdout", "Currents": TlaSet(["given"]), "ArgForms": ["eq"]}}],
             invariants=["Inv_C06"], ops=[], cli=True,
             cfg={"ds": "<!-- <", "de": "> -->", "tl": "time-limited", "rm": "removal-marker", "off": "+00:00", "targets": []},
             nontrivial=None)
@@ -800,6 +849,9 @@ def check_C10(ctx):
     block_like = [lines_gen(7 if q else 9, 3, 3, ["R", "P", "Ru"], blank=False)]
     ctx.job("tree-in-clean", gens=block_like, invariants=["Inv_C10"], ops=[{"op": "clean"}], cfg={"ds": "<", "de": ">"},
             nontrivial=has_ready)
+    # scale: hundreds of simultaneously open / stray / nested tags, hundreds of regions in front of a well-formed element
+    pump_job(ctx, ["Inv_C10"], [{"op": "tree"}], ["open", "stray", "nest", "nest-p", "ready", "pending"],
+             [256, 257] if q else [255, 256, 257, 300, 1000], cores=(0,))
     repo_docs_job(ctx, ["Inv_C10"], [{"op": "tree"}, {"op": "clean"}])
 
 
@@ -821,8 +873,21 @@ def check_C18(ctx):
         g["base"] = "GenRespell"
         g["emit"] = "EmitPairs"
         g["consts"]["Spellings"] = others
+        g["consts"]["CliPhase"] = ""
         ctx.job("respell[%s|%s]" % (ds, de), gens=[g], invariants=["Inv_C18"], ops=[],
                 cfg={"ds": ds, "de": de, "tl": tl, "rm": rm}, nontrivial=has_ready)
+    # the command line is the tool: the respelled configuration given by options, for spellings a shell / an argument
+    # parser / an escape convention could treat specially (backslashes, leading dashes, '$(', '=', blanks at the edges)
+    for (form, (ds, de)) in [("eq", ("[[", "]]")), ("sep", ("<", ">"))][: 1 if q and ctx.seed % 2 else 2]:
+        others = [{"ds": Chars(ds2), "de": Chars(de2), "tl": Chars(tl2), "rm": Chars(rm2)}
+                  for ((ds2, de2), (tl2, rm2)) in zip(CLI_SPELLINGS, NAME_POOL * 3)]
+        g = lines_gen(4 if q else 5, 2, 2, ["R", "P", "T", "Ru"], blank=False)
+        g["base"] = "GenRespell"
+        g["emit"] = "EmitPairs"
+        g["consts"]["Spellings"] = others
+        g["consts"]["CliPhase"] = form
+        ctx.job("respell-cli[%s]" % form, gens=[g], invariants=["Inv_C18"], ops=[], cli=True,
+                cfg={"ds": ds, "de": de, "tl": "tl", "rm": "rm"}, nontrivial=has_ready)
 
 
 def chains(quick=False):
@@ -893,6 +958,8 @@ def check_C19(ctx):
         # elements wholly on one line behind code, inside and around unwrap-blocks that expire later
         ("hist-tail", lines_gen(6 if q else 8, 2, 2, ["T1", "T2u"], blank=False, tail=True, max_code=2 if q else 3)),
         ("hist-tail-blank", lines_gen(5 if q else 7, 2, 2, ["T1", "T2u"], blank=True, tail=True, max_code=1 if q else 2)),
+        # tags sharing lines with code: a child closing on the closing wrapper line, opening on the opening one
+        ("hist-inline", lines_gen(6 if q else 8, 2, 2, ["T1", "T2u"], blank=False, inline=True, max_code=2 if q else 3)),
     ]
     for (name, g) in sets:
         g["base"] = "GenHist"
@@ -907,6 +974,8 @@ CLI_DOCS_DEFAULT = [
     # time re-read in the process's zone, or an offset dropped, changes the decision
     "k\n<!-- <time-limited to='2022-01-08 03:00:00'> -->\nsoon\n<!-- </time-limited> -->\n"
     "<!-- <time-limited to='2022-01-07 20:00:00'> -->\njust\n<!-- </time-limited> -->\nz\n",
+    # a byte order mark in front, CRLF line ends, no final line break: nothing of this is the command's business
+    "\ufeffbom\r\n<!-- <time-limited to='2001-01-01 00:00:00'> -->\r\nold\r\n<!-- </time-limited> -->\r\n<!-- <removal-marker name='a'> -->ra<!-- </removal-marker> -->\r\nlast",
     "a\n<!-- <time-limited to='2001-01-01 00:00:00'> -->\nold\n<!-- </time-limited> -->\n"
     "<!-- <removal-marker name='a'> -->\n  ra\n<!-- </removal-marker> -->\n"
     "<!-- <removal-marker name='feature1' unwrap-block> -->\nif (f) {\n  keep();\n}\n<!-- </removal-marker> -->\n"
@@ -949,31 +1018,41 @@ def check_C20(ctx):
     if q:
         zones = [zones[ctx.seed % 4], zones[(ctx.seed + 1) % 4]]
     langs = [""] if q else ["", "C", "en_US.UTF-8", "ja_JP.UTF-8"]
-    ctx.job("cli-defaults", gens=[{"base": "GenCli", "consts": {"Docs": [Chars(d) for d in (CLI_DOCS_DEFAULT[:4] if q else CLI_DOCS_DEFAULT)],
+    ctx.job("cli-defaults", gens=[{"base": "GenCli", "consts": {"Docs": [Chars(d) for d in (CLI_DOCS_DEFAULT[:5] if q else CLI_DOCS_DEFAULT)],
                                                                 "TargetPool": [Chars(""), Chars("a"), Chars("feature1"), Chars("x,y"), Chars("x y")],
-                                                                "Zones": zones, "Langs": langs, "OmitAll": True, "Part": "all", "Currents": TlaSet(["given"])}}],
+                                                                "Zones": zones, "Langs": langs, "OmitAll": True, "Part": "all", "Currents": TlaSet(["given"]), "ArgForms": [["eq", "sep"][ctx.seed % 2]] if q else ["eq", "sep"]}}],
             invariants=["Inv_C20"], ops=[], cli=True,
             cfg={"ds": "<!-- <", "de": "> -->", "tl": "time-limited", "rm": "removal-marker", "off": "+00:00",
                  "now": [19000, 0], "targets": []}, nontrivial=None)
     ctx.job("cli-custom", gens=[{"base": "GenCli", "consts": {"Docs": [Chars(d) for d in CLI_DOCS_CUSTOM],
                                                               "TargetPool": [Chars("a"), Chars("b")],
-                                                              "Zones": zones[:1] if q else zones, "Langs": langs[:1], "OmitAll": False, "Part": "all", "Currents": TlaSet(["given"])}}],
+                                                              "Zones": zones[:1] if q else zones, "Langs": langs[:1], "OmitAll": False, "Part": "all", "Currents": TlaSet(["given"]), "ArgForms": ["eq", "sep"]}}],
             invariants=["Inv_C20"], ops=[], cli=True,
             cfg={"ds": "/* <", "de": "> */", "tl": "tl", "rm": "rm", "off": "+09:00", "now": [19000, 3600], "targets": []},
             nontrivial=None)
     # option values with leading / trailing blanks, upper-case tag names, an offset without colon
     ctx.job("cli-blank-delims", gens=[{"base": "GenCli", "consts": {"Docs": [Chars(d) for d in CLI_DOCS_BLANK],
                                                                    "TargetPool": [Chars("a"), Chars(" b ")],
-                                                                   "Zones": zones[:1], "Langs": langs[:1], "OmitAll": False, "Part": "stdout", "Currents": TlaSet(["given"])}}],
+                                                                   "Zones": zones[:1], "Langs": langs[:1], "OmitAll": False, "Part": "stdout", "Currents": TlaSet(["given"]), "ArgForms": ["eq", "sep"]}}],
             invariants=["Inv_C20"], ops=[], cli=True,
             cfg={"ds": " <", "de": "> ", "tl": "TL", "rm": "Rm", "off": "-0330", "now": [19000, 3600], "targets": []},
             nontrivial=None)
+    # delimiters and tag names that an argument parser, an escape convention or a shell could treat specially
+    tmpl = CLI_DOCS_CUSTOM[1]
+    sp = CLI_SPELLINGS if not q else [CLI_SPELLINGS[0], CLI_SPELLINGS[(ctx.seed % (len(CLI_SPELLINGS) - 1)) + 1], CLI_SPELLINGS[((ctx.seed + 5) % (len(CLI_SPELLINGS) - 1)) + 1]]
+    for (ds, de) in sp:
+        doc = tmpl.replace("/* <", ds).replace("> */", de)
+        ctx.job("cli-spelling[%s|%s]" % (ds, de), gens=[{"base": "GenCli", "consts": {"Docs": [Chars(doc)], "TargetPool": [Chars("a"), Chars("zz")],
+                                                                   "Zones": zones[:1], "Langs": langs[:1], "OmitAll": False, "Part": "stdout",
+                                                                   "Currents": TlaSet(["given"]), "ArgForms": ["eq", "sep"]}}],
+                invariants=["Inv_C20"], ops=[], cli=True,
+                cfg={"ds": ds, "de": de, "tl": "tl", "rm": "rm", "off": "+09:00", "now": [19000, 3600], "targets": []}, nontrivial=None)
     # growth beyond C20: no (usable) --time-limited-current, the process reads the system clock; the harness reads it before
     # and after the run, Conform!ConfWallClock compares with the library result (reported as DRIFT, never as a verdict)
-    ctx.job("cli-wallclock", gens=[{"base": "GenCli", "consts": {"Docs": [Chars(d) for d in CLI_DOCS_DEFAULT[1:4]],
+    ctx.job("cli-wallclock", gens=[{"base": "GenCli", "consts": {"Docs": [Chars(d) for d in (CLI_DOCS_DEFAULT[1:2] + CLI_DOCS_DEFAULT[3:5])],
                                                                  "TargetPool": [Chars("a"), Chars("feature1")],
                                                                  "Zones": zones[:2], "Langs": langs[:1], "OmitAll": True, "Part": "stdout",
-                                                                 "Currents": TlaSet(["omit", "garbage"])}}],
+                                                                 "Currents": TlaSet(["omit", "garbage"]), "ArgForms": ["eq"]}}],
             invariants=["Inv_C20"], ops=[], cli=True, conform=True,
             cfg={"ds": "<!-- <", "de": "> -->", "tl": "time-limited", "rm": "removal-marker", "off": "+00:00",
                  "now": [19000, 0], "targets": []}, nontrivial=None)
@@ -983,7 +1062,7 @@ CHECKS = {"C01": check_C01, "C02": check_C02, "C03": check_C03, "C04": check_C04
           "C11": check_C11, "C12": check_C12, "C13": check_C13, "C14": check_C14, "C15": check_C15, "C16": check_C16,
           "C17": check_C17, "C05": check_C05, "C06": check_C06, "C09": check_C09, "C10": check_C10, "C18": check_C18,
           "C19": check_C19, "C20": check_C20}
-NEEDS_CLI = {"C05", "C06", "C20", "C01"}
+NEEDS_CLI = {"C05", "C06", "C20", "C01", "C18"}
 
 
 RULES = {
@@ -1016,3 +1095,32 @@ ASSUMPTIONS = [
     "bounded exploration: exhaustive inside the generator bounds listed per job, seeded simulation / junk beyond them",
     "the harness is built from /repo's working tree with the cargo feature verif-hooks, overflow checks and debug assertions on",
 ]
+
+
+# ---------------------------------------------------------------------------------------------------------------
+# scale: pumped documents (GenPump).  "\x01" inside a unit is replaced by the repetition index.
+PUMP_UNITS = {
+    "open":    ("<x>", ""),                                   # k unclosed opening tags of an unregistered name in front of the core
+    "stray":   ("</x>", ""),                                  # k stray closing tags
+    "nest":    ("<x c='\x01'>\n", "</x>\n"),                  # the core nested k deep in unregistered elements
+    "nest-p":  ("<rm name='b'>\n", "</rm>\n"),                # ... in pending elements
+    "lines":   ("p\x01;\n", ""),                              # k lines in front (line numbers of the core grow)
+    "after":   ("", "q\x01;\n"),                              # k lines behind
+    "ready":   ("<rm name='a'>\nr\x01;\n</rm>\ns\x01;\n", ""),   # k removed regions in front of the core
+    "pending": ("<rm name='b'>\nr\x01;\n</rm>\n", ""),        # k pending regions in front
+    "indent":  (" ", ""),                                     # the core's first line indented by k blanks
+    "mb":      ("é", "あ"),                                    # k two-byte characters in front, k three-byte characters behind
+    "mb4":     ("😀", ""),                                    # k four-byte characters in front (byte offsets run away from character offsets)
+    "blank":   ("\n", "\n"),                                  # k empty lines around the core
+}
+PUMP_CORES = ["<rm name='a'>\n  x1;\n</rm>\ny1;\n",
+              "k0;\n<rm name='a' unwrap-block>\nif (f) {\n  k1;\n  <tl to='2000-01-01 00:00:00'>\n  old;\n  </tl>\n  k2;\n}\n</rm>\nz1;"]
+
+
+def pump_job(ctx, invariants, ops, units, ks, cores=(0, 1), name="pumped"):
+    """documents pumped to a size no exhaustive family reaches; few behaviours, each of them large"""
+    from vlib import TlaSet
+    gens = [{"base": "GenPump", "workers": 2,
+             "consts": {"Units": [[Chars(PUMP_UNITS[u][0]), Chars(PUMP_UNITS[u][1])] for u in units],
+                        "Cores": [Chars(PUMP_CORES[c]) for c in cores], "Ks": TlaSet(list(ks))}}]
+    ctx.job(name, gens=gens, invariants=invariants, ops=ops, cfg={"ds": "<", "de": ">"}, nontrivial=has_ready, shards=8)
